@@ -2,7 +2,7 @@
 from ..engine import analyze_fn, norm as nm, program, State
 from ..terms import T, Term, pp
 from .. import prov
-from ..prov import norm, show, ok_outcomes, P, F_, C, ADD, MUL, SLICE, ENTSIZE, PARSE
+from ..prov import norm, show, ok_outcomes, P, F_, C, ADD, MUL, SLICE, ENTSIZE, PARSE, AS
 
 LEVEL = "proof"
 RULE_TEXT = ("provenance normal forms (value origin with error plumbing stripped) of every success outcome of find_shdrs / find_phdrs / "
@@ -32,6 +32,10 @@ def guard_val(an, st, term, value):
         x, frm = term.args[1], term.args[2]
         r = an.truth(st.facts, T.bin("Eq", x, T.const(frm, value), frm))
     return r
+
+
+def norm_ty_name(t):
+    return nm(t) if isinstance(t, str) else t
 
 
 def table_outcomes(F, rep, q, kind, file_is_stream):
@@ -109,8 +113,14 @@ def table_outcomes(F, rep, q, kind, file_is_stream):
     n_fail = 0
     def allowed(cause):
         k = cause[0]
-        if k in ("conv", "entsize", "overflow"):
+        if k in ("conv", "overflow"):
             return True
+        if k == "entsize":
+            # only the entry size of this very table is checked against this table's entry type (a shared helper that also validates
+            # the *other* table's entry size refuses files the sibling parser opens)
+            fld_ = F_(eh, "e_shentsize" if kind == "sh" else "e_phentsize")
+            src_ = cause[2][2] if (isinstance(cause[2], tuple) and cause[2] and cause[2][0] == "as") else cause[2]
+            return norm_ty_name(cause[1]) == ety and src_ == fld_
         if k == "parse" and cause[1] == SH:
             return True
         if k == "read" and (cause[1], cause[2]) in table_ranges:
@@ -351,5 +361,19 @@ def run(ctx, rep):
             good = n[0] == "agg" and len(n[3]) == 4 and n[3][1] == P(1) and "find_shdrs" in show(n[3][2]) and "find_phdrs" in show(n[3][3])
             rep.require(good, "table-location", "minimal_parse:fields", wh(fn["span"]), "ElfBytes{ehdr, data, shdrs: find_shdrs, phdrs: find_phdrs}",
                         "minimal_parse builds %s" % show(n)[:300])
+    # the rules above speak about e_shoff / e_shnum / ... of the FileHeader struct and sh_size / sh_info / sh_link of shdr[0]: that these
+    # are the file's fields (not normalised on the way in) is C02; that the stream parser's read_bytes(a, b) hands back file[a..b) is the
+    # cache protocol shared with C07 / C08
+    from ._common import premise
+    premise(ctx, rep, "C02", "FileHeader / SectionHeader fields are the file's fields", rules={"decode", "decode-reads", "decode-size", "decode-errors"}, where="src/file.rs, src/section.rs")
+    if "std" in F["config"]["features"]:
+        from ..streamrules import rule_cache_protocol, rule_load_before_get
+        from ..runner import Report
+        subc = Report("C05")
+        rule_cache_protocol(F, subc)
+        rule_load_before_get(F, subc)
+        rep.require(not subc.violations, "premise", "stream reads return the requested file range (cache protocol)", "src/elf_stream.rs",
+                    "read_bytes(a, b) answers from a buffer cached for exactly [a, b)",
+                    "the stream parser's cache can answer a read with other bytes than the requested range: %s" % "; ".join("%s: %s" % (v.key, v.msg[:140]) for v in subc.violations[:3]))
     rep.trusted_base += ["C02 for the decoding of the header / shdr[0] fields, C19 for PN_XNUM / SHN_XINDEX / SHN_UNDEF",
                         "semantics of checked_mul/checked_add/try_into (value-preserving on success) and <[u8]>::get"]
